@@ -586,6 +586,97 @@ def _f_binary(op):
     return g
 
 
+# transcendental functions have no bit-precise semantics in z3: they are uninterpreted but FUNCTIONAL (same argument ->
+# same value) with their elementary range facts; a counterexample that depends on their values will not reproduce natively
+_UF = {}
+
+
+def _uf(name, sort, arity=1):
+    key = (name, str(sort), arity)
+    if key not in _UF:
+        _UF[key] = z3.Function('%s_%s' % (name, 'f32' if sort == F32 else 'f64'), *([sort] * arity + [sort]))
+    return _UF[key]
+
+
+def _f_transcendental(name, lo=None, hi=None):
+    def g(vm, cal, args):
+        x = fp_plain(args[0])
+        srt = x.sort()
+        y = _uf(name, srt)(x)
+        vm.add_pc(z3.Not(z3.fpIsNaN(y)) if lo is None else z3.And(z3.fpGEQ(y, z3.FPVal(lo, srt)), z3.fpLEQ(y, z3.FPVal(hi, srt))))
+        if name in ('sin', 'cos') and z3.is_fp_value(x) and z3.simplify(z3.fpIsZero(x)).__bool__() if False else False:
+            pass
+        return y
+    return g
+
+
+for _ty in ('f32', 'f64'):
+    M.table[(_ty, None, 'sin')] = _f_transcendental('sin', -1.0, 1.0)
+    M.table[(_ty, None, 'cos')] = _f_transcendental('cos', -1.0, 1.0)
+    for _n in ('tan', 'exp', 'ln', 'atan', 'asin', 'acos', 'tanh', 'log10', 'log2', 'cbrt'):
+        M.table[(_ty, None, _n)] = _f_transcendental(_n)
+
+
+@reg(('f32', None, 'sin_cos'), ('f64', None, 'sin_cos'))
+def _f_sin_cos(vm, cal, args):
+    return (M.table[('f32', None, 'sin')](vm, cal, args), M.table[('f32', None, 'cos')](vm, cal, args))
+
+
+@reg(('f32', None, 'atan2'), ('f64', None, 'atan2'), ('f32', None, 'powf'), ('f64', None, 'powf'), ('f32', None, 'hypot'), ('f64', None, 'hypot'))
+def _f_binary_uf(vm, cal, args):
+    a, b = fp_plain(args[0]), fp_plain(args[1])
+    return _uf(cal.method, a.sort(), 2)(a, b)
+
+
+@reg(('f32', None, 'powi'), ('f64', None, 'powi'))
+def _f_powi(vm, cal, args):
+    n = args[1].concrete()
+    if n is None or n < 0 or n > 4:
+        raise Unmodelled("powi with exponent %r" % (n,))
+    r = None
+    for _ in range(n):
+        r = args[0] if r is None else f_arith('mul', r, args[0])
+    return r if r is not None else (z3.FPVal(1.0, fp_plain(args[0]).sort()))
+
+
+@reg(('f32', None, 'mul_add'), ('f64', None, 'mul_add'))
+def _f_mul_add(vm, cal, args):
+    a, b, c = fp_plain(args[0]), fp_plain(args[1]), fp_plain(args[2])
+    return z3.fpFMA(RNE, a, b, c)
+
+
+@reg(('f32', None, 'ceil'), ('f64', None, 'ceil'), ('f32', None, 'round'), ('f64', None, 'round'), ('f32', None, 'trunc'), ('f64', None, 'trunc'))
+def _f_rounding(vm, cal, args):
+    x = fp_plain(args[0])
+    mode = {'ceil': z3.RTP(), 'round': z3.RNA(), 'trunc': z3.RTZ()}[cal.method]
+    return z3.fpRoundToIntegral(mode, x)
+
+
+@reg(('f32', None, 'signum'), ('f64', None, 'signum'))
+def _f_signum(vm, cal, args):
+    x = fp_plain(args[0])
+    srt = x.sort()
+    return z3.If(z3.fpIsNaN(x), x, z3.If(z3.fpIsNegative(x), z3.FPVal(-1.0, srt), z3.FPVal(1.0, srt)))
+
+
+@reg(('f32', None, 'clamp'), ('f64', None, 'clamp'))
+def _f_clamp(vm, cal, args):
+    x, lo, hi = args
+    return f_ite(f_rel('lt', x, lo), lo, f_ite(f_rel('gt', x, hi), hi, x))
+
+
+@reg(('f32', None, 'is_finite'), ('f64', None, 'is_finite'), ('f32', None, 'is_infinite'), ('f64', None, 'is_infinite'))
+def _f_is_finite(vm, cal, args):
+    x = fp_plain(args[0])
+    fin = z3.And(z3.Not(z3.fpIsNaN(x)), z3.Not(z3.fpIsInf(x)))
+    return fin if cal.method == 'is_finite' else z3.fpIsInf(x)
+
+
+@reg(('f32', None, 'to_bits'), ('f64', None, 'to_bits'))
+def _f_to_bits(vm, cal, args):
+    return I(z3.fpToIEEEBV(fp_plain(args[0])), False)
+
+
 for _ty in ('f32', 'f64'):
     M.table[(_ty, None, 'max')] = _f_binary('max')
     M.table[(_ty, None, 'min')] = _f_binary('min')
